@@ -94,7 +94,7 @@ def step (s : S) (line : String) : S × String :=
   | ["recv", n] =>
     let n := natOf n
     if s.out.length ≥ n then ({ s with out := s.out.drop n }, hex (s.out.take n))
-    else ({ s with out := [] }, (if s.dead then "closed:" else "err-timeout:") ++ hex s.out)
+    else ({ s with out := [] }, (if s.dead then "closed:" else "timeout:") ++ hex s.out)
   | ["quiet"] =>
     ({ s with out := [] }, if s.dead then "closed:" ++ hex s.out else if s.out.isEmpty then "quiet" else hex s.out)
   | _ => (s, "bad-op")
